@@ -13,6 +13,7 @@ import ZygoVerif.Spec.Unfinished
 import ZygoVerif.Proofs.ParseChunks
 import ZygoVerif.Proofs.Abandon
 import ZygoVerif.Proofs.Stepwise
+import ZygoVerif.Proofs.StepwiseTrace
 import ZygoVerif.Generated.LexTables
 import ZygoVerif.Generated.ResetOrder
 namespace ZygoVerif.Props.C13
@@ -309,28 +310,33 @@ theorem status_of_run (l : LexState) (cs : List (List Char)) :
   rw [(parseChunksFrom_eq_abstract l cs).1]
   cases (runA (topLoop (fuelFor cs)) ⟨LexCore.init, cs.flatten ++ eofPiece, [], true⟩).1 <;> rfl
 
-/-- **`stepwise_is_run_partial`: the call-by-call protocol computes `parseChunks`** — final status
-and expressions — for EVERY parser state `p` (any lexer state, any reply, any suspended coroutine,
-also one that is not the parser's), EVERY list of pieces, and every per-iterator fuel `F` not below
-the fuel of the delivery model, whenever the parse of the text does not end in an error (status
-`done` or `more`). The pieces are delivered by `ResetAddNewInput`/`NewInput`, `ParseTokens` after
-each, `EndInput`, `ParseTokens`; a call that answers `more` keeps its coroutine (`residual`) and the
-next call resumes it; a call that answers `done` ends its `ParsingIter` and the next call starts a
-NEW one with NEW fuel `F` — the step over a `done` is closed by `run_fuel_mono`: the rest of the
-delivery-model run (which has less fuel left) is not an error, so it is the run of the new iterator.
-With `parse_chunks_eq_whole`: on the real protocol too, a non-error parse depends only on the text.
+/-- **`stepwise_is_run_partial`: the call-by-call protocol computes `parseChunks`** — final status,
+expressions AND the statuses of all intermediate calls — for EVERY parser state `p` (any lexer
+state, any reply, any suspended coroutine, also one that is not the parser's), EVERY list of pieces,
+and every per-iterator fuel `F` not below the fuel of the delivery model, whenever the parse of the
+text does not end in an error (status `done` or `more`). The pieces are delivered by
+`ResetAddNewInput`/`NewInput`, `ParseTokens` after each, `EndInput`, `ParseTokens`; a call that
+answers `more` keeps its coroutine (`residual`) and the next call resumes it; a call that answers
+`done` ends its `ParsingIter` and the next call starts a NEW one with NEW fuel `F` — the step over a
+`done` is closed by `run_fuel_mono`: the rest of the delivery-model run (which has less fuel left) is
+not an error, so it is the run of the new iterator. With `parse_chunks_eq_whole`: on the real
+protocol too, a non-error parse depends only on the text.
+Status and expressions: `Proofs/Stepwise.parseBy_abstract` (on the abstract views: `suspendA`
+characterised against `runA`, the shape `TL` of the programs the protocol ever holds, `call_step`).
+Trace: `Proofs/StepwiseTrace.parseBy_trace` (on the concrete interpreter: `run_split` splits a run
+with pieces still to come at the first delivery, `first_step`, `chunk_trace`).
 
-What is missing from `StepwiseIsRun`:
-(1) parses that END IN AN ERROR after some call answered `done`: there the statement needs "the
-    fuel of the delivery model is enough" (`4 * length + 16` ≥ 3 per token + 1 per top-level
-    expression), because fuel exhaustion and a syntax error are one outcome in the model; without a
-    `done` before the error it is proved (`stepwise_is_run_until_done`);
-(2) the statuses of the intermediate calls (`trace`): they are not part of the abstract views the
-    proof runs on. Both are compared on every `parse h` op by the driver (`MODELS-DISAGREE`). -/
+What is missing from `StepwiseIsRun`: parses that END IN AN ERROR after some call answered `done`.
+There the statement needs "the fuel of the delivery model is enough" (`4 * length + 16` against at
+most 3 per token + 1 per top-level expression), because fuel exhaustion and a syntax error are one
+outcome in the model (`FuelIsEnough` below, stated, not proved). Without a `done` before the error it
+is proved for status and expressions (`stepwise_is_run_until_done`). The driver still computes both
+models on every `parse h` op (`MODELS-DISAGREE`). -/
 theorem stepwise_is_run_partial (p : PSt) (cs : List (List Char)) (F : Nat) (hF : fuelFor cs ≤ F)
     (hne : (parseChunks cs).status ≠ .err) :
     (p.parseBy F .resetAdd cs).1.status = (parseChunks cs).status ∧
-    (p.parseBy F .resetAdd cs).1.exprs = (parseChunks cs).exprs := by
+    (p.parseBy F .resetAdd cs).1.exprs = (parseChunks cs).exprs ∧
+    (p.parseBy F .resetAdd cs).1.trace = (parseChunks cs).trace := by
   have hst := status_of_run LexState.init cs
   have hex := (parseChunksFrom_eq_abstract LexState.init cs).2
   have hne0 : (runA (topLoop (fuelFor cs)) ⟨LexCore.init, cs.flatten ++ eofPiece, [], true⟩).1 ≠ .stop .err := by
@@ -340,8 +346,19 @@ theorem stepwise_is_run_partial (p : PSt) (cs : List (List Char)) (F : Nat) (hF 
     rw [hst, h]; rfl
   have hmono := runA_fuel_mono (fuelFor cs) F hF _ hne0
   obtain ⟨a1, a2⟩ := parseBy_abstract F p cs _ hmono hne0
-  unfold parseChunks
-  exact ⟨a1.trans hst.symm, a2.trans hex.symm⟩
+  refine ⟨?_, ?_, parseBy_trace F p cs hF hne⟩
+  · unfold parseChunks; exact a1.trans hst.symm
+  · unfold parseChunks; exact a2.trans hex.symm
+
+/-- **Stated, NOT proved: the fuel of the delivery model is enough** — the one fact `StepwiseIsRun`
+still needs: the parse of a text with the fuel `fuelFor` is the parse with any larger fuel, ALSO when
+it ends in an error (i.e. that error is a syntax error, never the fuel). Proving it needs a
+potential argument over the eight mutually recursive functions (fuel spent ≤ 3 per token consumed
++ 1 per top-level expression) and over the lexer (tokens produced ≤ runes read + 1). For parses that
+do not end in an error it is `run_fuel_mono`. -/
+def FuelIsEnough : Prop :=
+  ∀ (cs : List (List Char)) (F : Nat), fuelFor cs ≤ F →
+    run (topLoop F) (initState LexState.init cs) = run (topLoop (fuelFor cs)) (initState LexState.init cs)
 
 /-- a 3-piece delivery: the first piece is complete (`done`, a new `ParsingIter` follows), the
 middle piece is unfinished (`more`, a coroutine is kept), the third closes it -/
@@ -352,7 +369,12 @@ example : (parseChunks threePieces).status ≠ .err ∧
     (parseChunks threePieces).exprs.length = 2 := by decide +kernel
 
 example : (PSt.fresh.parseBy (fuelFor threePieces) .resetAdd threePieces).1.exprs = (parseChunks threePieces).exprs :=
-  (stepwise_is_run_partial PSt.fresh threePieces _ (Nat.le_refl _) (by decide +kernel)).2
+  (stepwise_is_run_partial PSt.fresh threePieces _ (Nat.le_refl _) (by decide +kernel)).2.1
+
+/-- … and with it what the delivery model records for these pieces -/
+example : (parseChunks threePieces).trace = [.done, .more, .done] := by
+  rw [← (stepwise_is_run_partial PSt.fresh threePieces _ (Nat.le_refl _) (by decide +kernel)).2.2]
+  decide +kernel
 
 /-- **`stepwise_is_run_until_done`**: with the fuel of the delivery model, as long as no
 `ParseTokens` call before the last answers `done` (every piece but the last leaves the text
@@ -379,7 +401,8 @@ example : (PSt.fresh.parseBy (fuelFor threeBad) .resetAdd threeBad).1.trace = [.
 theorem stepwise_is_run_after_history (p : PSt) (r : Route) (hr : r.isReset = true)
     (hr' : r ≠ .resetAddLexerFirst ∧ r ≠ .resetNewLexerFirst) (cs : List (List Char)) (F : Nat)
     (hF : fuelFor cs ≤ F) (hne : (parseChunks cs).status ≠ .err) :
-    (p.parseBy F r cs).1.status = (parseChunks cs).status ∧ (p.parseBy F r cs).1.exprs = (parseChunks cs).exprs := by
+    (p.parseBy F r cs).1.status = (parseChunks cs).status ∧ (p.parseBy F r cs).1.exprs = (parseChunks cs).exprs ∧
+    (p.parseBy F r cs).1.trace = (parseChunks cs).trace := by
   rw [protocol_reset_forgets F p r hr hr' cs]
   exact stepwise_is_run_partial PSt.fresh cs F hF hne
 
